@@ -389,6 +389,21 @@ func instrument(c *fileCtx, handlers map[types.Object]bool) {
 				}
 				return true
 			}
+			// capacity knobs: a constructor called NewLRUCache with a literal capacity gets the capacity
+			// from the simulator (so that the eviction path runs with few documents)
+			if len(x.Args) == 1 {
+				name := ""
+				switch f := x.Fun.(type) {
+				case *ast.Ident:
+					name = f.Name
+				case *ast.SelectorExpr:
+					name = f.Sel.Name
+				}
+				if lit, ok := x.Args[0].(*ast.BasicLit); ok && name == "NewLRUCache" && lit.Kind == token.INT {
+					note("knob", c.site(x)+" lru="+lit.Value)
+					c.replace(lit.Pos(), lit.End(), "simrt.Knob(\"lru\", "+lit.Value+")")
+				}
+			}
 			sel, ok := x.Fun.(*ast.SelectorExpr)
 			if !ok {
 				return true
